@@ -84,6 +84,17 @@ pub fn waker(id: u32) -> Waker {
     w
 }
 
+/// A waker whose `wake` panics (a bug in an executor, a channel whose receiver is gone, …).
+pub fn panicking_waker() -> Waker {
+    struct P;
+    impl std::task::Wake for P {
+        fn wake(self: Arc<Self>) {
+            panic!("waker panics");
+        }
+    }
+    Waker::from(Arc::new(P))
+}
+
 pub fn drain_wakes() -> Vec<u32> {
     std::mem::take(&mut *lockp(&WAKES))
 }
